@@ -61,6 +61,7 @@ func (c *Chain) NNSCallAt(ts uint64, signers []neotest.Signer, h util.Uint160, m
 	b := &block.Block{Header: block.Header{Index: c.BC.BlockHeight() + 1, Timestamp: ts}}
 	ttx := *tx
 	ic, _ := c.BC.GetTestVM(trigger.Application, &ttx, b)
+	c.CoverVM(ic.VM)
 	defer ic.Finalize()
 	defer func() {
 		if r := recover(); r != nil {
